@@ -1,11 +1,12 @@
 #!/usr/bin/env python3
-"""seed_confirm.py <Cxx> <k> [check ids...] — confirm a sub-agent's seeded change in its scratch worktree
+"""[SEED_BASE=/tmp/seed2 SEED_OUT_K=3] seed_confirm.py <Cxx> <k> [check ids...] — confirm a sub-agent's seeded change in its scratch worktree
 (existing suite passes with the change; demo fails with it and passes without), run the given checks
 against it in /repo (apply, check, undo) and file it under /verif/seeded/<Cxx>-<k>/."""
 import json, os, re, shutil, subprocess, sys
 pid, k = sys.argv[1], sys.argv[2]
 checks = sys.argv[3:] or [pid]
-wt = "/tmp/seed/%s" % pid
+wt = "%s/%s" % (os.environ.get("SEED_BASE", "/tmp/seed"), pid)
+out_k = os.environ.get("SEED_OUT_K", k)
 src = "%s/OUT/change%s" % (wt, k)
 meta = json.load(open(src + "/meta.json"))
 env = dict(os.environ, CARGO_NET_OFFLINE="true")
@@ -23,7 +24,7 @@ suite_ok = "FAILED" not in out and "error" not in out and "test result: ok" in o
 ran.append("with change: cargo test --workspace --offline -> %s" % ("all pass" if suite_ok else "FAILS:\n" + out[-800:]))
 crate = meta.get("demo_crate", "").strip("/").split("/")[0] or "unic-locale-impl"
 demo_cmd = meta.get("demo_cmd", "")
-name = "seeded_demo_%s_%s" % (pid.lower(), k)
+name = "seeded_demo_%s_%s" % (pid.lower(), out_k)
 feat = ""
 m = re.search(r"--features[ =]([\w,\-]+)", demo_cmd)
 if m: feat = "--features " + m.group(1)
@@ -48,9 +49,9 @@ if confirmed:
             rc, out = sh("./check %s 2>&1 | grep -E '^(OK|VIOLATION|KNOWN)' | head -3" % c, "/verif")
             results[c] = out.strip()
     finally:
-        sh("git -C /repo checkout -- .")
+        sh("git -C /repo checkout -- . && git -C /repo clean -fdq")
         sh("python3 /verif/tools/translate.py /repo /verif/coq/gen")
-dst = "/verif/seeded/%s-%s" % (pid, k)
+dst = "/verif/seeded/%s-%s" % (pid, out_k)
 os.makedirs(dst, exist_ok=True)
 shutil.copy(src + "/patch.diff", dst + "/patch.diff")
 shutil.copy(src + "/demo_test.rs", dst + "/demo_test.rs")
